@@ -52,6 +52,24 @@ Print Assumptions C03_complete.
 Example C03_year_9999 : 253402300799 <= TS_MAX.
 Proof. vm_compute. discriminate. Qed.
 
+(* ---- tie to the source: make_request, verify_framing and receive_response as translated from
+   src/bin/roughenough-client.rs on this run compute what the model computes (same bytes / same
+   message, or both fail); receive_response is stated on the client's zeroed 4096-byte buffer and
+   calls the translated decoder ---- *)
+Require RV.Model.GenSupport RV.Gen.Code RV.Proofs.CodeClientReq.
+Theorem C03_translated_make_request_is_model :
+  forall H v nonce dump pk,
+    ok_opt (RV.Gen.Code.gen_make_request H v nonce dump pk) = ok_opt (make_request H v nonce pk).
+Proof. exact RV.Proofs.CodeClientReq.gen_make_request_model. Qed.
+Print Assumptions C03_translated_make_request_is_model.
+
+Theorem C03_translated_receive_is_model :
+  forall v dgram, (length dgram <= RECV_BUF)%nat ->
+    ok_opt (RV.Gen.Code.gen_receive_response v (dgram ++ repeat_byte x00 (RECV_BUF - length dgram)) (lenN dgram))
+    = ok_opt (receive_response v dgram).
+Proof. exact RV.Proofs.CodeClientReq.gen_receive_response_model. Qed.
+Print Assumptions C03_translated_receive_is_model.
+
 (* ---- tie to the source: the integer literals of the functions this property's model stands for
    (private constants, bounds, unit factors; the files are SiteMap.files_C03) are today the ones the
    model was written against. Gen/Sites.v num_literals is regenerated from /repo on every run; a
